@@ -261,14 +261,17 @@ void MD5::update(const void* plain_text_ptr, size_t plain_text_len)
     //! 下面代码是解决一个unsignde int 无法储存极大数据导致溢出的问题
     //! 当前位数加上新添加的位数，由于plain_text_len是以字节为单位，所以其转换为位数
     //! 相当于count_[0] += plain_text_len*8;
-    count_[0] += plain_text_len << 3;
+    //! 注意：低32位的进位判断必须在32位内进行（与 RFC 1321 的参考实现一致），
+    //! 否则当一次传入的数据不小于 2^29 字节时，64位的 (plain_text_len << 3) 恒大于 count_[0]，会多进一位
+    const uint32_t low_bits = static_cast<uint32_t>(plain_text_len << 3);
+    count_[0] += low_bits;
 
     //! 当其出现溢出的情况时，通过以下操作把两个16位的数连在一块，生成一个
     //! 32位的二进制数串，从而扩大其储存范围
-    if (count_[0] < (plain_text_len << 3))
+    if (count_[0] < low_bits)
         count_[1]++;
 
-    count_[1] += plain_text_len >> 29;
+    count_[1] += static_cast<uint32_t>(plain_text_len >> 29);
 
     const uint8_t *plain_text_u8_ptr = static_cast<const uint8_t*>(plain_text_ptr);
 
